@@ -25,18 +25,18 @@ VARIABLES
     \* sender half
     pcw, piw, pmf, sdelta, appw, sentb, sst,
     \* receiver half
-    W, ca, siw, rdelta, unread, rdoff, rst, cu, minRefresh,
+    W, ca, siw, rdelta, unread, rdoff, rst, cu, su, minRefresh,
     \* connection
     dev,      \* named deviations of the real code that were taken (known findings), see DevReadAfterGone
     owe,      \* obligations: FLOW_CONTROL reactions E still has to show: records [s |-> id or 0]
     dead      \* E has sent GOAWAY with an error / closed the connection
 
-vars == <<pcw, piw, pmf, sdelta, appw, sentb, sst, W, ca, siw, rdelta, unread, rdoff, rst, cu,
+vars == <<pcw, piw, pmf, sdelta, appw, sentb, sst, W, ca, siw, rdelta, unread, rdoff, rst, cu, su,
           minRefresh, owe, dead, dev>>
 (* model-checking VIEW: the read offset is an observation, not state *)
-mcView == <<pcw, piw, pmf, sdelta, appw, sentb, sst, W, ca, siw, rdelta, unread, rst, cu, minRefresh, owe, dead, dev>>
+mcView == <<pcw, piw, pmf, sdelta, appw, sentb, sst, W, ca, siw, rdelta, unread, rst, cu, su, minRefresh, owe, dead, dev>>
 sendVars == <<pcw, piw, pmf, sdelta, appw, sentb, sst>>
-recvVars == <<W, ca, siw, rdelta, unread, rdoff, rst, cu, minRefresh>>
+recvVars == <<W, ca, siw, rdelta, unread, rdoff, rst, cu, su, minRefresh>>
 
 Judged(h) == h \in Enforce
 
@@ -57,6 +57,7 @@ InitWith(w, cw, iw, mf, rcw, riw, mr) ==
     /\ W = w /\ ca = rcw /\ siw = riw /\ rdelta = [s \in Streams |-> 0]
     /\ unread = [s \in Streams |-> 0] /\ rdoff = [s \in Streams |-> 0]
     /\ rst = [s \in Streams |-> "idle"] /\ cu = w - rcw /\ minRefresh = mr
+    /\ su = [s \in Streams |-> 0]
     /\ owe = {} /\ dead = FALSE /\ dev = {}
 
 -----------------------------------------------------------------------------
@@ -66,7 +67,7 @@ StreamOpen(s, hasBody) ==
     /\ sst[s] = "idle" /\ rst[s] = "idle"
     /\ sst' = [sst EXCEPT ![s] = "open"]
     /\ rst' = [rst EXCEPT ![s] = IF hasBody THEN "open" ELSE "ended"]
-    /\ UNCHANGED <<pcw, piw, pmf, sdelta, appw, sentb, W, ca, siw, rdelta, unread, rdoff, cu, minRefresh, owe, dead, dev>>
+    /\ UNCHANGED <<pcw, piw, pmf, sdelta, appw, sentb, W, ca, siw, rdelta, unread, rdoff, cu, su, minRefresh, owe, dead, dev>>
 
 (* ---------------- sender half ---------------- *)
 (* P's WINDOW_UPDATE.  A window may not exceed MaxInt: E must answer with a               *)
@@ -125,21 +126,35 @@ Refund(n) == cu' = cu + n
 (* the declared Content-Length; then only the connection window is involved).  Otherwise the frame is charged to both windows; its payload is   *)
 (* buffered if the body accepts it, and everything else (padding, DATA for a body that     *)
 (* no longer accepts it) is credit E got back at once.                                     *)
+(* su[s] bounds the stream-level credit E has earned (reads, padding) and P has not yet seen  *)
+(* in a WINDOW_UPDATE: E applies such credit to the window it enforces when it QUEUES the      *)
+(* update, and a stream's update can sit behind that stream's flow-blocked DATA.  So E's       *)
+(* enforced stream window lies in RW(s) .. RW(s)+su[s]: a frame beyond RW(s)+su[s] must be      *)
+(* refused, one within RW(s) must be accepted, in between either is legal.                     *)
+StreamChecked(s, accept) == rst[s] \in {"open", "noBody"} /\ accept
+PeerDataRefused(s) ==
+    /\ owe' = owe \cup {[s |-> s, h |-> "recv"]}
+    /\ UNCHANGED <<ca, rdelta, unread, cu, su, rst>>
+PeerDataTaken(s, len, pad, es, accept) ==
+    /\ ca' = ca - len
+    /\ IF rst[s] = "open" /\ accept
+       THEN /\ rdelta' = [rdelta EXCEPT ![s] = @ - len]
+            /\ unread' = [unread EXCEPT ![s] = @ + (len - pad)]
+            /\ Refund(pad)
+            /\ su' = [su EXCEPT ![s] = @ + pad]
+       ELSE /\ rdelta' = IF rst[s] = "noBody" /\ accept THEN [rdelta EXCEPT ![s] = @ - len] ELSE rdelta
+            /\ unread' = unread
+            /\ Refund(len)
+            /\ su' = su
+    /\ rst' = [rst EXCEPT ![s] = IF es /\ @ \in {"open", "noBody"} THEN "ended" ELSE @]
+    /\ owe' = owe
 PeerData(s, len, pad, es, accept) ==
     /\ len >= 0 /\ pad >= 0 /\ pad <= len
-    /\ IF len > ca \/ (rst[s] \in {"open", "noBody"} /\ accept /\ len > RW(s))
-       THEN /\ owe' = owe \cup {[s |-> s, h |-> "recv"]}
-            /\ UNCHANGED <<ca, rdelta, unread, cu, rst>>
-       ELSE /\ ca' = ca - len
-            /\ IF rst[s] = "open" /\ accept
-               THEN /\ rdelta' = [rdelta EXCEPT ![s] = @ - len]
-                    /\ unread' = [unread EXCEPT ![s] = @ + (len - pad)]
-                    /\ Refund(pad)
-               ELSE /\ rdelta' = IF rst[s] = "noBody" /\ accept THEN [rdelta EXCEPT ![s] = @ - len] ELSE rdelta
-                    /\ unread' = unread
-                    /\ Refund(len)
-            /\ rst' = [rst EXCEPT ![s] = IF es /\ @ \in {"open", "noBody"} THEN "ended" ELSE @]
-            /\ owe' = owe
+    /\ IF len > ca \/ (StreamChecked(s, accept) /\ len > RW(s) + su[s])
+       THEN PeerDataRefused(s)
+       ELSE IF StreamChecked(s, accept) /\ len > RW(s)
+            THEN PeerDataRefused(s) \/ PeerDataTaken(s, len, pad, es, accept)
+            ELSE PeerDataTaken(s, len, pad, es, accept)
     /\ UNCHANGED <<W, siw, rdoff, minRefresh, dead, dev>> /\ UNCHANGED sendVars
 
 (* The application reads n buffered bytes of s: they become credit.                        *)
@@ -148,19 +163,20 @@ AppRead(s, n) ==
     /\ unread' = [unread EXCEPT ![s] = @ - n]
     /\ rdoff' = [rdoff EXCEPT ![s] = @ + n]
     /\ Refund(n)
+    /\ su' = [su EXCEPT ![s] = @ + n]
     /\ UNCHANGED <<W, ca, siw, rdelta, rst, minRefresh, owe, dead, dev>> /\ UNCHANGED sendVars
 
 (* The application closes the body: later DATA is not buffered any more.                   *)
 AppCloseBody(s) ==
     /\ rst' = [rst EXCEPT ![s] = IF @ = "open" THEN "noBody" ELSE @]
-    /\ UNCHANGED <<W, ca, siw, rdelta, unread, rdoff, cu, minRefresh, owe, dead, dev>> /\ UNCHANGED sendVars
+    /\ UNCHANGED <<W, ca, siw, rdelta, unread, rdoff, cu, su, minRefresh, owe, dead, dev>> /\ UNCHANGED sendVars
 
 (* Variant used by the Transport: closing the response body discards what is buffered at once. *)
 AppCloseBodyDiscard(s) ==
     /\ rst' = [rst EXCEPT ![s] = IF @ = "open" THEN "noBody" ELSE @]
     /\ Refund(unread[s])
     /\ unread' = [unread EXCEPT ![s] = 0]
-    /\ UNCHANGED <<W, ca, siw, rdelta, rdoff, minRefresh, owe, dead, dev>> /\ UNCHANGED sendVars
+    /\ UNCHANGED <<W, ca, siw, rdelta, rdoff, su, minRefresh, owe, dead, dev>> /\ UNCHANGED sendVars
 
 (* The connection is gone (E closed it): nothing more can be owed on the wire.                *)
 ConnClosed ==
@@ -174,7 +190,7 @@ StreamGone(s) ==
     /\ rst' = [rst EXCEPT ![s] = "gone"]
     /\ Refund(unread[s])
     /\ unread' = [unread EXCEPT ![s] = 0]
-    /\ UNCHANGED <<pcw, piw, pmf, sdelta, appw, sentb, sst, W, ca, siw, rdelta, rdoff, minRefresh, owe, dead, dev>>
+    /\ UNCHANGED <<pcw, piw, pmf, sdelta, appw, sentb, sst, W, ca, siw, rdelta, rdoff, su, minRefresh, owe, dead, dev>>
 
 (* Known deviation of the real server (finding F9, C10): closeStream credits the bytes still   *)
 (* buffered in the request body AND leaves them readable; when the handler reads them later  *)
@@ -184,7 +200,7 @@ DevReadAfterGone(s, n) ==
     /\ rst[s] = "gone" /\ n > 0
     /\ Refund(n)
     /\ dev' = dev \cup {"F9-server-read-after-stream-close-credited-twice"}
-    /\ UNCHANGED <<W, ca, siw, rdelta, unread, rdoff, rst, minRefresh, owe, dead>> /\ UNCHANGED sendVars
+    /\ UNCHANGED <<W, ca, siw, rdelta, unread, rdoff, rst, su, minRefresh, owe, dead>> /\ UNCHANGED sendVars
 
 (* E returns credit.  C10: never more than it holds (cu), never past the configured        *)
 (* window or 2^31-1.                                                                       *)
@@ -192,9 +208,10 @@ SendWU(s, inc) ==
     /\ inc > 0
     /\ IF s = 0
        THEN /\ Judged("credit") => (inc <= cu /\ ca <= MaxInt - inc)
-            /\ ca' = ca + inc /\ cu' = cu - inc /\ rdelta' = rdelta
+            /\ ca' = ca + inc /\ cu' = cu - inc /\ rdelta' = rdelta /\ su' = su
        ELSE /\ Judged("credit") => RW(s) <= MaxInt - inc
             /\ rdelta' = [rdelta EXCEPT ![s] = @ + inc] /\ UNCHANGED <<ca, cu>>
+            /\ su' = [su EXCEPT ![s] = IF @ > inc THEN @ - inc ELSE 0]
     /\ UNCHANGED <<W, siw, unread, rdoff, rst, minRefresh, owe, dead, dev>> /\ UNCHANGED sendVars
 
 (* E reports an error.  A FLOW_CONTROL error must be owed (C11: DATA within the window      *)
@@ -240,12 +257,13 @@ Next ==
        \/ ~MustRefresh /\ \E s \in Streams, n \in 1..MCn : appw[s] < MCn /\ AppWrite(s, n)
        \/ ~MustRefresh /\ \E s \in Streams, n \in 0..MCn, es \in BOOLEAN : SendDataOK(s, n) /\ SendData(s, n, es)
        \/ ~MustRefresh /\ \E s \in Streams, len \in 0..MCn, pad \in 0..1, es, acc \in BOOLEAN :
-              rst[s] # "idle" /\ PeerData(s, len, pad, es, acc)
-       \/ ~MustRefresh /\ \E s \in Streams, n \in 1..MCn : AppRead(s, n)
+              rst[s] # "idle" /\ su[s] + pad <= MCw /\ PeerData(s, len, pad, es, acc)
+       \/ ~MustRefresh /\ \E s \in Streams, n \in 1..MCn : su[s] + n <= MCw /\ AppRead(s, n)
        \/ ~MustRefresh /\ \E s \in Streams : rst[s] = "open" /\ AppCloseBody(s)
        \/ ~MustRefresh /\ \E s \in Streams : rst[s] = "open" /\ AppCloseBodyDiscard(s)
        \/ ~MustRefresh /\ \E s \in Streams : rst[s] \notin {"idle", "gone"} /\ StreamGone(s)
        \/ \E inc \in 1..cu : ca <= MaxInt - inc /\ SendWU(0, inc)
+       \/ \E s \in Streams : \E inc \in 1..su[s] : RW(s) <= MaxInt - inc /\ SendWU(s, inc)
        \/ \E s \in Streams : Owed(s) /\ SendRST(s, TRUE)
        \/ owe # {} /\ SendGoAway(TRUE)
 
